@@ -19,6 +19,8 @@ import Proofs.Lemmas.C19Lex
 import Proofs.Lemmas.C19Store
 import Proofs.Lemmas.C19Clean
 import Proofs.Lemmas.C19Parse
+import Proofs.Lemmas.C19Parse3
+import Proofs.Lemmas.C19Names
 
 namespace C19
 open Storage.Query Analysis.Quote
@@ -622,5 +624,132 @@ theorem front_end_chain (q add : Bytes) (ha : add ≠ []) (h1 : add ≠ wBar) (h
   apply List.map_congr_left
   intro g _
   exact splitWords_quote_cons add g ha
+
+
+open Analysis.Parse in
+/-- the state in which the old query's parts are processed once the builder's word has been read:
+the word is the prefix if the old query has no `|` byte (addToQuery then inserts ` | `), otherwise
+it is the first part of whatever the old query starts with -/
+def startState (q add : Bytes) : PSt :=
+  if q.any (· == cBar) then { parts := [quote add] } else { prefP := [quote add] }
+
+open Analysis.Parse in
+/-- **front_end_chain_general** (no hypothesis on the old query): for a non-empty word other than the
+bare `|` / `vs`, what the storage server receives for `addToQuery q add` — every storage query split
+into words by `SplitWords` — is obtained from the PARTS parseQueryString cuts: the quoted word is
+exactly one part (`tok_addToQuery`: the splitting points are outside the quoted region), the old
+query's parts follow and are processed by the `|` / `vs` bookkeeping from `startState`; the words of a
+storage query are the words of its parts one after the other, and the part `quote add` contributes
+exactly the word `add` (`splitwords_quote`). -/
+theorem front_end_chain_general (q add : Bytes) (ha : add ≠ []) (h1 : add ≠ wBar) (h2 : add ≠ wVs) :
+    (sentQueries (addToQuery q add)).map splitWords =
+      (sentParts (startState q add) (tokGo false [] q).1 (tokGo false [] q).2).map
+        (fun g => g.flatMap splitWords) ∧
+    splitWords (quote add) = [add] := by
+  refine ⟨?_, splitWords_quote_end add ha⟩
+  rw [sent_addToQuery_general q add ha h1 h2]
+  apply sent_words _ _ _ ?_ (parts_closed q)
+  split
+  · exact ⟨by simp, by intro t ht; simp only [List.mem_singleton] at ht; subst ht; exact closed_quote add ha,
+      by simp⟩
+  · exact ⟨by intro t ht; simp only [List.mem_singleton] at ht; subst ht; exact closed_quote add ha,
+      by simp, by simp⟩
+
+open Analysis.Parse in
+/-- **added_word_lands**: whatever the old query is, if anything is sent then the first storage query
+contains the part `quote add` (hence, by `front_end_chain_general`, the word `add` intact). When the
+old query has no `|`, or its first separator is `|`, the word is in the prefix and therefore in every
+storage query; when a `vs` comes before the first `|` of the old query, the word stays in the first
+`vs` group only — the other groups are sent without it (that is what the code does; the clause "split
+back into exactly the original word" holds wherever the word is sent). -/
+theorem added_word_lands (q add : Bytes) (ha : add ≠ []) :
+    ∀ g, (sentParts (startState q add) (tokGo false [] q).1 (tokGo false [] q).2).head? = some g →
+      quote add ∈ g := by
+  apply sentParts_lands (quote add) (quote_ne_nil add ha)
+  unfold startState
+  split
+  · exact .inParts rfl (by simp)
+  · exact .inPrefix (by simp)
+
+
+/-! ### name-derived labels of every line of a stored record -/
+
+open Storage.Fmt in
+theorem reach_stands_names (db : DB) (h : Reach db) :
+    DBStands (fun r => CleanResult r ∧ NameOK r) db := by
+  induction h with
+  | empty => intro rec hrec; cases hrec
+  | upload db day user files hr hP ih =>
+    refine processUpload_stands _ db (reach_inv db hr).1 ih day user files ?_
+    intro i f hf r hrm
+    exact ⟨hP i f hf r hrm, reader_names (some _) f.content r hrm⟩
+
+open Storage.Fmt in
+/-- **name_labels_come_back** (gap (i) of the notes): in a reachable state without empty label values,
+for a stored record standing for the run `hd :: t` whose index rows are the labels of `hd`: every
+result read back from the record — the first line and the coalesced ones alike — carries exactly the
+name-derived labels that are indexed for the record (`hd.nameL`), as long as `hd` has name labels at
+all (an empty benchmark name met first by the Reader has none: the one-entry cache). -/
+theorem name_labels_come_back (db : DB) (h : Reach db) (hne : NoEmptyValues db)
+    (rec : RecordRow) (hrec : rec ∈ db.records) :
+    ∃ hd t, db.labels.filter (fun l => l.rkey == rec.rkey) = rowsFor rec.upload rec.rid hd ∧
+      (readAll rec.content).map (fun r => (r.labels, r.content)) =
+        (hd :: t).map (fun r => (hd.labels, r.content)) ∧
+      (hd.nameL ≠ [] → ∀ x ∈ readAll rec.content, x.nameL = hd.nameL) := by
+  obtain ⟨hd, t, ⟨hcl, hnm⟩, ht, hcont, hrows⟩ := reach_stands_names db h rec hrec
+  have hround : (readAll rec.content).map (fun r => (r.labels, r.content)) =
+      (hd :: t).map (fun r => (hd.labels, r.content)) := by
+    rw [hcont]
+    exact stored_record_roundtrip hd t hcl
+      (fun r hr => ⟨(ht r hr).1.1.bench, (ht r hr).1.1.noNl, (ht r hr).1.1.noCr⟩)
+  refine ⟨hd, t, hrows, hround, ?_⟩
+  intro hnonempty x hx
+  -- the indexed name labels hold no empty value
+  have hvals : ∀ kv ∈ hd.nameL, kv.2 ≠ [] := by
+    intro kv hkv
+    have : (⟨rec.upload, rec.rid, kv.1, kv.2⟩ : LabelRow) ∈ db.labels.filter (fun l => l.rkey == rec.rkey) := by
+      rw [hrows]
+      exact List.mem_map.mpr ⟨kv, List.mem_append_right _ hkv, rfl⟩
+    exact hne _ (List.mem_filter.mp this).1
+  -- name labels of a result, from `NameOK`
+  have nameL_of : ∀ r : Result, NameOK r → ∃ n, parseBenchmarkLine r.content = some n ∧
+      ((r.nameL = parseNameLabels n) ∨ (n = [] ∧ r.nameL = [])) := by
+    intro r ⟨n, hb, hor⟩
+    refine ⟨n, hb, ?_⟩
+    rcases hor with h1 | ⟨h1, h2⟩
+    · exact Or.inl (by simp [Result.nameL, h1])
+    · exact Or.inr ⟨h1, by simp [Result.nameL, h2]⟩
+  have sortedL : ∀ r : Result, NameOK r → StrictSorted r.nameL := by
+    intro r hr
+    obtain ⟨n, _, h1 | ⟨_, h2⟩⟩ := nameL_of r hr
+    · rw [h1]; exact (parseNameLabels_ok n).1
+    · rw [h2]; simp [StrictSorted]
+  -- the line of x is the line of some result of the run
+  have hm : (x.labels, x.content) ∈ (hd :: t).map (fun r => (hd.labels, r.content)) := by
+    rw [← hround]; exact List.mem_map.mpr ⟨x, hx, rfl⟩
+  obtain ⟨r, hr, hre⟩ := List.mem_map.mp hm
+  simp only [Prod.mk.injEq] at hre
+  have hrn : NameOK r ∧ r.nameL = hd.nameL := by
+    rcases List.mem_cons.mp hr with rfl | hr
+    · exact ⟨hnm, rfl⟩
+    · have hs := (ht r hr).2
+      unfold Result.sameLabels at hs
+      simp only [Bool.and_eq_true] at hs
+      exact ⟨(ht r hr).1.2, (equal_eq hd.nameL r.nameL (sortedL hd hnm) (sortedL r (ht r hr).1.2) hvals hs.2).symm⟩
+  have hxn : NameOK x := reader_names none rec.content x hx
+  obtain ⟨n, hbn, hrl⟩ := nameL_of r hrn.1
+  obtain ⟨n', hbn', hxl⟩ := nameL_of x hxn
+  have hnn : n' = n := by rw [hre.2] at hbn; rw [hbn] at hbn'; cases hbn'; rfl
+  subst hnn
+  have hparse : hd.nameL = parseNameLabels n' := by
+    rcases hrl with h1 | ⟨_, h2⟩
+    · rw [← hrn.2, h1]
+    · exact absurd (hrn.2 ▸ h2) hnonempty
+  rcases hxl with h1 | ⟨h1, _⟩
+  · rw [h1, hparse]
+  · exfalso
+    subst h1
+    rw [parseNameLabels_nil] at hparse
+    exact hvals (Bytes.ofString "name", []) (by rw [hparse]; simp) rfl
 
 end C19
